@@ -51,8 +51,8 @@ func init() {
 		Old: "if !strings.HasPrefix(path.Base(key), filter) {", New: "if !strings.Contains(path.Base(key), filter) {",
 		Expect: "filter"})
 	addWitness(witness{Prop: "C07", Name: "merge-state-per-page", File: "pkg/core/keys.go",
-		Old:    "\tstates := make(map[string]stateMerge, settings.batchSize)\n\tfor batch := range inputChan {\n\t\tvar err error",
-		New:    "\tfor batch := range inputChan {\n\t\tstates := make(map[string]stateMerge, settings.batchSize)\n\t\tvar err error",
+		Old:    "\tstates := make(map[string]stateMerge, settings.batchSize)\n\tfor batch := range inputChan {\n",
+		New:    "\tfor batch := range inputChan {\n\t\tstates := make(map[string]stateMerge, settings.batchSize)\n",
 		Expect: "merge-keys"})
 	addWitness(witness{Prop: "C07", Name: "batch-not-sorted", File: "pkg/core/split_list.go",
 		Old: "\t// sort result batch\n\tsort.Sort(bds)\n\treturn bds, nil", New: "\tsort.Sort(model.SplitDescriptors{})\n\treturn bds, nil",
@@ -254,6 +254,176 @@ func runC07(c *Ctx) {
 	})
 
 	// (2) sibling pipelines
+	checkListingPipelines(c)
+
+	// (3) filter
+	{
+		f := p.Func("pkg/core.basenameKeyFilter")
+		okCond := false
+		var got string
+		ast.Inspect(f.Decl.Body, func(n ast.Node) bool {
+			ifs, ok := n.(*ast.IfStmt)
+			if !ok {
+				return true
+			}
+			d := describeExpr(f, ifs.Cond, 0)
+			if strings.Contains(d, "param#0") {
+				got = d
+				if d == "!call:strings.HasPrefix(call:path.Base(range(litparam)),param#0)" && len(ifs.Body.List) == 1 {
+					if br, ok := ifs.Body.List[0].(*ast.BranchStmt); ok && br.Tok == token.CONTINUE {
+						okCond = true
+					}
+				}
+			}
+			return true
+		})
+		c.check(okCond, "filter.basename-prefix", f.ID, p.Pos(f.Decl.Pos()), "a key is dropped iff its base name does not start with the filter", "basenameKeyFilter's test is `"+got+"`: it must keep exactly the keys whose base name (last path segment) starts with the filter — any looser test lets deeper keys (e.g. under a split named split-xx) pass as descriptors")
+		// next token and error pass through unchanged
+		okPass := false
+		ast.Inspect(f.Decl.Body, func(n ast.Node) bool {
+			if r, ok := n.(*ast.ReturnStmt); ok && len(r.Results) == 3 {
+				if describeExpr(f, r.Results[1], 0) == "litparam" && describeExpr(f, r.Results[2], 0) == "litparam" && strings.Contains(describeExpr(f, r.Results[0], 0), "append") || describeExpr(f, r.Results[0], 0) != "litparam" {
+					okPass = true
+				}
+			}
+			return true
+		})
+		c.check(okPass, "filter.token-preserved", f.ID, p.Pos(f.Decl.Pos()), "the continuation token and the error pass through the filter unchanged", "basenameKeyFilter no longer forwards the continuation token unchanged")
+		// templates: under the scanned prefix, only the target kind's terminal starts with the filter
+		builders := evalArchiveBuilders(c)
+		for _, lp := range listPipelines {
+			if lp.filter == "" {
+				continue
+			}
+			pf := p.Func(lp.prefixFn)
+			pts, why := evalBuilder(p, pf)
+			if why != "" || len(pts) != 1 {
+				undecided("%s cannot be evaluated (%s)", lp.prefixFn, why)
+			}
+			ps := pts[0].instantiate(sampleVals)
+			wantKind := map[string]string{"diamond-": "diamond-descriptor", "split-": "split-descriptor"}[lp.filter]
+			for _, eb := range builders {
+				for _, t := range eb.tmpls {
+					full := t.instantiate(sampleFor(t, "0"))
+					if !strings.HasPrefix(full, ps) {
+						continue
+					}
+					segs := t.segments()
+					term := segs[len(segs)-1].instantiate(sampleFor(t, "0"))
+					starts := strings.HasPrefix(term, lp.filter)
+					c.check(starts == (eb.spec.kind == wantKind), "filter.kinds-separated", lp.kind+"~"+eb.spec.id+"~"+term, p.Pos(eb.f.Decl.Pos()),
+						"under "+ps+": "+term+" ("+eb.spec.kind+") "+map[bool]string{true: "passes", false: "is dropped by"}[starts]+" the \""+lp.filter+"\" filter",
+						"under "+ps+" the key "+full+" of kind "+eb.spec.kind+" "+map[bool]string{true: "passes", false: "is dropped by"}[starts]+" the \""+lp.filter+"\" filter of the "+lp.kind+" listing")
+				}
+			}
+		}
+	}
+
+	// (4) mergeKeys
+	checkMergeKeysState(c)
+	checkListApplySiblings(c, "siblings.apply-errors")
+	checkNoRelabelAsMissing(c, "siblings.no-relabel")
+	checkGenericErrorDiscipline(c, "pkg/core")
+	checkBatchDistributesAllKeys(c, "siblings.batch-distributes-all")
+	if n := checkNoReuseAfterSend(c, "siblings.no-reuse-after-send", "pkg/core"); n == 0 {
+		c.ok("siblings.no-reuse-after-send", "pkg/core:scan", "-", "no slice of pkg/core is recycled in place (append(x[:0], …)) and sent on a channel")
+	}
+	checkDescriptorConsulted(c, "siblings.descriptor-consulted")
+	checkStagesForwardErrors(c, "siblings.stages-forward-errors")
+}
+
+// checkMergeKeysState is shared by several properties (the clause is necessary for each of them).
+func checkMergeKeysState(c *Ctx) {
+	p := c.P
+
+	{
+		f := p.Func("pkg/core.mergeKeys")
+		info := f.Info()
+		var statesVar *types.Var
+		var declStmt ast.Node
+		var outer *ast.RangeStmt
+		ast.Inspect(f.Decl.Body, func(n ast.Node) bool {
+			if rs, ok := n.(*ast.RangeStmt); ok && outer == nil {
+				if ch, ok := info.TypeOf(rs.X).Underlying().(*types.Chan); ok && namedTypeID(ch.Elem()) == "pkg/core.keyBatchEvent" {
+					outer = rs
+				}
+			}
+			if as, ok := n.(*ast.AssignStmt); ok && len(as.Lhs) == 1 && len(as.Rhs) == 1 && as.Tok == token.DEFINE {
+				if call, ok := as.Rhs[0].(*ast.CallExpr); ok {
+					if id, ok := ast.Unparen(call.Fun).(*ast.Ident); ok && id.Name == "make" {
+						if _, isMap := info.TypeOf(call).Underlying().(*types.Map); isMap && statesVar == nil {
+							statesVar, _ = info.Defs[as.Lhs[0].(*ast.Ident)].(*types.Var)
+							declStmt = as
+						}
+					}
+				}
+			}
+			return true
+		})
+		if statesVar == nil || outer == nil {
+			c.fail("merge-keys.state-persists", f.ID, p.Pos(f.Decl.Pos()), "mergeKeys no longer has a pending-state map and a loop over key batches")
+		} else {
+			c.check(!containsNode(outer, declStmt), "merge-keys.state-persists", f.ID, p.Pos(declStmt.Pos()),
+				"the pending-state map is created once, outside the loop over pages", "the pending-state map is re-created for every page: a done/running descriptor pair straddling a page boundary is no longer merged (object listed twice, or a completed split seen as running)")
+			// deletes only in the settle branch
+			nDel := 0
+			badDel := false
+			b := p.BodyOf(f)
+			ast.Inspect(f.Decl.Body, func(n ast.Node) bool {
+				call, ok := n.(*ast.CallExpr)
+				if !ok {
+					return true
+				}
+				id, ok := ast.Unparen(call.Fun).(*ast.Ident)
+				if !ok || id.Name != "delete" || len(call.Args) != 2 || !isVar(info, call.Args[0], statesVar) {
+					return true
+				}
+				nDel++
+				inSettle := false
+				for x := b.parent[call]; x != nil; x = b.parent[x] {
+					if ifs, ok := x.(*ast.IfStmt); ok && strings.Contains(exprString(ifs.Cond), ".count") {
+						inSettle = true
+					}
+				}
+				if !inSettle {
+					badDel = true
+				}
+				return true
+			})
+			c.check(nDel >= 1 && !badDel, "merge-keys.delete-when-settled", f.ID, p.Pos(f.Decl.Pos()), "entries leave the pending map only when settled (both states seen, or a lone running state)", "an entry is removed from the pending-state map outside the settle condition (e.g. flushed at the end of each page): the memory that pairs done/running keys across pages is lost")
+			// key
+			okKey := true
+			nIdx := 0
+			ast.Inspect(f.Decl.Body, func(n ast.Node) bool {
+				if ix, ok := n.(*ast.IndexExpr); ok && isVar(info, ix.X, statesVar) {
+					nIdx++
+					d := exprString(ix.Index)
+					if !(strings.HasSuffix(d, ".DiamondID + apc.SplitID") || strings.Contains(d, "DiamondID") && strings.Contains(d, "SplitID")) {
+						okKey = false
+					}
+				}
+				return true
+			})
+			c.check(nIdx > 0 && okKey, "merge-keys.keyed-by-object", f.ID, p.Pos(f.Decl.Pos()), "pending states are keyed by diamond ID + split ID", "the pending-state map is no longer keyed by diamond ID + split ID")
+		}
+		// done sorts before running
+		for _, pair := range [][2]string{{"pkg/model.GetArchivePathToFinalDiamond", "pkg/model.GetArchivePathToInitialDiamond"}, {"pkg/model.GetArchivePathToFinalSplit", "pkg/model.GetArchivePathToInitialSplit"}} {
+			a, _ := evalBuilder(p, p.Func(pair[0]))
+			bb, _ := evalBuilder(p, p.Func(pair[1]))
+			if len(a) != 1 || len(bb) != 1 {
+				undecided("descriptor builders cannot be evaluated")
+			}
+			sa, sb := a[0].instantiate(sampleVals), bb[0].instantiate(sampleVals)
+			c.check(sa < sb, "merge-keys.done-before-running", pair[0], "-", sa+" sorts before "+sb, "the done descriptor key "+sa+" no longer sorts before the running one "+sb+": mergeKeys relies on that order")
+		}
+	}
+	_ = p
+}
+
+// checkListingPipelines (C07, pooled): the sibling listing pipelines (repos, bundles, labels, diamonds, splits) agree on
+// scan, wiring, filtering, error forwarding, batch forwarding and batch ordering.
+func checkListingPipelines(c *Ctx) {
+	p := c.P
 	for _, lp := range listPipelines {
 		// scan
 		cf := p.Func(lp.chanFn)
@@ -347,6 +517,37 @@ func runC07(c *Ctx) {
 			}
 			bad, nT, nA := bb.guardedByNilErr(isBatch, isSend)
 			c.check(nT > 0 && nA > 0 && len(bad) == 0, "siblings.batch-forwarded", lp.fetchFn, p.Pos(f.Decl.Pos()), "a batch is emitted only when fetching it succeeded", shortCallee(lp.fetchFn)+" can emit a batch although "+shortCallee(lp.batchFn)+" failed")
+			// a failed batch is never skipped: no `continue`/`break` is reachable from the batch call unless its error was
+			// tested nil (a skipped batch drops up to a page of live objects from the listing without any error)
+			var batchErr *types.Var
+			for _, bc := range bb.findCalls(isBatch, false) {
+				if v := errVarOfCall(bb, bc); v != nil {
+					batchErr = v
+				}
+			}
+			var badSkip []ast.Node
+			ast.Inspect(f.Decl.Body, func(n ast.Node) bool {
+				br, ok := n.(*ast.BranchStmt)
+				if !ok || batchErr == nil {
+					return true
+				}
+				for par := f.parentOf(br); par != nil; par = f.parentOf(par) {
+					if ifs, ok := par.(*ast.IfStmt); ok && usesObj(f.Info(), ifs.Cond, batchErr) && condNilness(f.Info(), ifs.Cond, batchErr) != -1 {
+						badSkip = append(badSkip, br)
+					}
+				}
+				return true
+			})
+			c.check(len(badSkip) == 0, "siblings.batch-error-ends", lp.fetchFn, p.Pos(f.Decl.Pos()), "no failed batch is skipped", shortCallee(lp.fetchFn)+" can go on to the next page after "+shortCallee(lp.batchFn)+" failed (whatever the error): every live object of that page is missing from a listing that reports no error")
+			// batches are emitted in key order: the worker resolves one page at a time in its own goroutine
+			nGo := 0
+			ast.Inspect(f.Decl.Body, func(n ast.Node) bool {
+				if _, ok := n.(*ast.GoStmt); ok {
+					nGo++
+				}
+				return true
+			})
+			c.check(nGo == 0, "siblings.batches-in-key-order", lp.fetchFn, p.Pos(f.Decl.Pos()), "pages are resolved and emitted one at a time, in key order", shortCallee(lp.fetchFn)+" resolves pages in concurrent goroutines: batches are emitted as they complete, so a listing spanning several pages is no longer in key order (squash and latest-bundle then pick the wrong bundles)")
 		}
 		// fetchXBatch: sorted before success; worker error fails
 		{
@@ -454,166 +655,4 @@ func runC07(c *Ctx) {
 			c.check(strings.Join(rets, ";") == strings.Join(want, ";"), "order.less", lf.ID, p.Pos(lf.Decl.Pos()), lp.kind+" ordered by "+lp.lessKey, lp.lessType+".Less returns `"+strings.Join(rets, ";")+"`, documented order is by "+lp.lessKey)
 		}
 	}
-
-	// (3) filter
-	{
-		f := p.Func("pkg/core.basenameKeyFilter")
-		okCond := false
-		var got string
-		ast.Inspect(f.Decl.Body, func(n ast.Node) bool {
-			ifs, ok := n.(*ast.IfStmt)
-			if !ok {
-				return true
-			}
-			d := describeExpr(f, ifs.Cond, 0)
-			if strings.Contains(d, "param#0") {
-				got = d
-				if d == "!call:strings.HasPrefix(call:path.Base(range(litparam)),param#0)" && len(ifs.Body.List) == 1 {
-					if br, ok := ifs.Body.List[0].(*ast.BranchStmt); ok && br.Tok == token.CONTINUE {
-						okCond = true
-					}
-				}
-			}
-			return true
-		})
-		c.check(okCond, "filter.basename-prefix", f.ID, p.Pos(f.Decl.Pos()), "a key is dropped iff its base name does not start with the filter", "basenameKeyFilter's test is `"+got+"`: it must keep exactly the keys whose base name (last path segment) starts with the filter — any looser test lets deeper keys (e.g. under a split named split-xx) pass as descriptors")
-		// next token and error pass through unchanged
-		okPass := false
-		ast.Inspect(f.Decl.Body, func(n ast.Node) bool {
-			if r, ok := n.(*ast.ReturnStmt); ok && len(r.Results) == 3 {
-				if describeExpr(f, r.Results[1], 0) == "litparam" && describeExpr(f, r.Results[2], 0) == "litparam" && strings.Contains(describeExpr(f, r.Results[0], 0), "append") || describeExpr(f, r.Results[0], 0) != "litparam" {
-					okPass = true
-				}
-			}
-			return true
-		})
-		c.check(okPass, "filter.token-preserved", f.ID, p.Pos(f.Decl.Pos()), "the continuation token and the error pass through the filter unchanged", "basenameKeyFilter no longer forwards the continuation token unchanged")
-		// templates: under the scanned prefix, only the target kind's terminal starts with the filter
-		builders := evalArchiveBuilders(c)
-		for _, lp := range listPipelines {
-			if lp.filter == "" {
-				continue
-			}
-			pf := p.Func(lp.prefixFn)
-			pts, why := evalBuilder(p, pf)
-			if why != "" || len(pts) != 1 {
-				undecided("%s cannot be evaluated (%s)", lp.prefixFn, why)
-			}
-			ps := pts[0].instantiate(sampleVals)
-			wantKind := map[string]string{"diamond-": "diamond-descriptor", "split-": "split-descriptor"}[lp.filter]
-			for _, eb := range builders {
-				for _, t := range eb.tmpls {
-					full := t.instantiate(sampleFor(t, "0"))
-					if !strings.HasPrefix(full, ps) {
-						continue
-					}
-					segs := t.segments()
-					term := segs[len(segs)-1].instantiate(sampleFor(t, "0"))
-					starts := strings.HasPrefix(term, lp.filter)
-					c.check(starts == (eb.spec.kind == wantKind), "filter.kinds-separated", lp.kind+"~"+eb.spec.id+"~"+term, p.Pos(eb.f.Decl.Pos()),
-						"under "+ps+": "+term+" ("+eb.spec.kind+") "+map[bool]string{true: "passes", false: "is dropped by"}[starts]+" the \""+lp.filter+"\" filter",
-						"under "+ps+" the key "+full+" of kind "+eb.spec.kind+" "+map[bool]string{true: "passes", false: "is dropped by"}[starts]+" the \""+lp.filter+"\" filter of the "+lp.kind+" listing")
-				}
-			}
-		}
-	}
-
-	// (4) mergeKeys
-	checkMergeKeysState(c)
-	checkListApplySiblings(c, "siblings.apply-errors")
-	checkNoRelabelAsMissing(c, "siblings.no-relabel")
-	checkGenericErrorDiscipline(c, "pkg/core")
-	checkBatchDistributesAllKeys(c, "siblings.batch-distributes-all")
-	if n := checkNoReuseAfterSend(c, "siblings.no-reuse-after-send", "pkg/core"); n == 0 {
-		c.ok("siblings.no-reuse-after-send", "pkg/core:scan", "-", "no slice of pkg/core is recycled in place (append(x[:0], …)) and sent on a channel")
-	}
-	checkDescriptorConsulted(c, "siblings.descriptor-consulted")
-}
-
-// checkMergeKeysState is shared by several properties (the clause is necessary for each of them).
-func checkMergeKeysState(c *Ctx) {
-	p := c.P
-
-	{
-		f := p.Func("pkg/core.mergeKeys")
-		info := f.Info()
-		var statesVar *types.Var
-		var declStmt ast.Node
-		var outer *ast.RangeStmt
-		ast.Inspect(f.Decl.Body, func(n ast.Node) bool {
-			if rs, ok := n.(*ast.RangeStmt); ok && outer == nil {
-				if ch, ok := info.TypeOf(rs.X).Underlying().(*types.Chan); ok && namedTypeID(ch.Elem()) == "pkg/core.keyBatchEvent" {
-					outer = rs
-				}
-			}
-			if as, ok := n.(*ast.AssignStmt); ok && len(as.Lhs) == 1 && len(as.Rhs) == 1 && as.Tok == token.DEFINE {
-				if call, ok := as.Rhs[0].(*ast.CallExpr); ok {
-					if id, ok := ast.Unparen(call.Fun).(*ast.Ident); ok && id.Name == "make" {
-						if _, isMap := info.TypeOf(call).Underlying().(*types.Map); isMap && statesVar == nil {
-							statesVar, _ = info.Defs[as.Lhs[0].(*ast.Ident)].(*types.Var)
-							declStmt = as
-						}
-					}
-				}
-			}
-			return true
-		})
-		if statesVar == nil || outer == nil {
-			c.fail("merge-keys.state-persists", f.ID, p.Pos(f.Decl.Pos()), "mergeKeys no longer has a pending-state map and a loop over key batches")
-		} else {
-			c.check(!containsNode(outer, declStmt), "merge-keys.state-persists", f.ID, p.Pos(declStmt.Pos()),
-				"the pending-state map is created once, outside the loop over pages", "the pending-state map is re-created for every page: a done/running descriptor pair straddling a page boundary is no longer merged (object listed twice, or a completed split seen as running)")
-			// deletes only in the settle branch
-			nDel := 0
-			badDel := false
-			b := p.BodyOf(f)
-			ast.Inspect(f.Decl.Body, func(n ast.Node) bool {
-				call, ok := n.(*ast.CallExpr)
-				if !ok {
-					return true
-				}
-				id, ok := ast.Unparen(call.Fun).(*ast.Ident)
-				if !ok || id.Name != "delete" || len(call.Args) != 2 || !isVar(info, call.Args[0], statesVar) {
-					return true
-				}
-				nDel++
-				inSettle := false
-				for x := b.parent[call]; x != nil; x = b.parent[x] {
-					if ifs, ok := x.(*ast.IfStmt); ok && strings.Contains(exprString(ifs.Cond), ".count") {
-						inSettle = true
-					}
-				}
-				if !inSettle {
-					badDel = true
-				}
-				return true
-			})
-			c.check(nDel >= 1 && !badDel, "merge-keys.delete-when-settled", f.ID, p.Pos(f.Decl.Pos()), "entries leave the pending map only when settled (both states seen, or a lone running state)", "an entry is removed from the pending-state map outside the settle condition (e.g. flushed at the end of each page): the memory that pairs done/running keys across pages is lost")
-			// key
-			okKey := true
-			nIdx := 0
-			ast.Inspect(f.Decl.Body, func(n ast.Node) bool {
-				if ix, ok := n.(*ast.IndexExpr); ok && isVar(info, ix.X, statesVar) {
-					nIdx++
-					d := exprString(ix.Index)
-					if !(strings.HasSuffix(d, ".DiamondID + apc.SplitID") || strings.Contains(d, "DiamondID") && strings.Contains(d, "SplitID")) {
-						okKey = false
-					}
-				}
-				return true
-			})
-			c.check(nIdx > 0 && okKey, "merge-keys.keyed-by-object", f.ID, p.Pos(f.Decl.Pos()), "pending states are keyed by diamond ID + split ID", "the pending-state map is no longer keyed by diamond ID + split ID")
-		}
-		// done sorts before running
-		for _, pair := range [][2]string{{"pkg/model.GetArchivePathToFinalDiamond", "pkg/model.GetArchivePathToInitialDiamond"}, {"pkg/model.GetArchivePathToFinalSplit", "pkg/model.GetArchivePathToInitialSplit"}} {
-			a, _ := evalBuilder(p, p.Func(pair[0]))
-			bb, _ := evalBuilder(p, p.Func(pair[1]))
-			if len(a) != 1 || len(bb) != 1 {
-				undecided("descriptor builders cannot be evaluated")
-			}
-			sa, sb := a[0].instantiate(sampleVals), bb[0].instantiate(sampleVals)
-			c.check(sa < sb, "merge-keys.done-before-running", pair[0], "-", sa+" sorts before "+sb, "the done descriptor key "+sa+" no longer sorts before the running one "+sb+": mergeKeys relies on that order")
-		}
-	}
-	_ = p
 }
